@@ -65,7 +65,6 @@ def showCStyle (st : CStyle Casc) : String :=
   ";".intercalate (st.map (fun (name, v, w) =>
     name ++ "=" ++ showCasc v ++ "@" ++ toString w.prec ++ ":" ++ showSpec w.spec))
 
-def showBoolE : Except CErr Bool → String := renderExcept (fun b => if b then "true" else "false")
 def showValE : Except CErr Val → String := renderExcept Val.render
 
 /-! ### media / preprocess -/
@@ -255,9 +254,9 @@ def handle (cmd : String) (args : List Sx) : Option String :=
   | "pagematch", [sel, page] => do
     let sel ← pageSelector? sel
     let page ← pageType? page
-    pure (showBoolE (pageTypeMatch sel page))
+    pure (toString (pageTypeMatch sel page))
   | "nth", [a, offset] => do
-    pure (showBoolE (nthTest (← a.int?) (← offset.int?)))
+    pure (toString (nthTest (← a.int?) (← offset.int?)))
   | "pagedecls", [page, pseudo, .list sheets] => do
     let page ← pageType? page
     let pseudo ← optOf Sx.atom? pseudo
